@@ -13,7 +13,8 @@ package c05
 //	flags     the flags of these commands: name, shorthand, default, variable
 //
 // The rows are semantic normal forms, not text: inlining a helper, replacing /2.0 by *0.5 or turning a < b
-// into b > a changes nothing; renaming a local variable that occurs in a comparison does.
+// into b > a or renaming a local variable changes nothing (locals are printed $1, $2, … in order of first
+// occurrence among the comparisons of the function); reordering two comparisons does.
 
 import (
 	"fmt"
@@ -94,23 +95,126 @@ func isConst(e ast.Expr) bool {
 	return false
 }
 
-// cmpsOf lists the normalised comparisons of a body in source order.
-func cmpsOf(body ast.Node) [][3]string {
+// localsOf collects the names a function declares itself: receiver, parameters, results, `:=`, `var`, range
+// variables.  In the rendering of a comparison they are replaced by $1, $2, … in the order of their first
+// occurrence among the comparisons of the function, so that renaming a local changes nothing.
+func localsOf(fn ast.Node) map[string]bool {
+	loc := map[string]bool{}
+	addFields := func(fl *ast.FieldList) {
+		if fl == nil {
+			return
+		}
+		for _, f := range fl.List {
+			for _, nm := range f.Names {
+				loc[nm.Name] = true
+			}
+		}
+	}
+	ast.Inspect(fn, func(n ast.Node) bool {
+		switch x := n.(type) {
+		case *ast.FuncDecl:
+			addFields(x.Recv)
+			addFields(x.Type.Params)
+			addFields(x.Type.Results)
+		case *ast.FuncLit:
+			addFields(x.Type.Params)
+			addFields(x.Type.Results)
+		case *ast.AssignStmt:
+			if x.Tok == token.DEFINE {
+				for _, l := range x.Lhs {
+					if id, ok := l.(*ast.Ident); ok {
+						loc[id.Name] = true
+					}
+				}
+			}
+		case *ast.ValueSpec:
+			for _, nm := range x.Names {
+				loc[nm.Name] = true
+			}
+		case *ast.RangeStmt:
+			if x.Tok == token.DEFINE {
+				for _, e := range []ast.Expr{x.Key, x.Value} {
+					if id, ok := e.(*ast.Ident); ok {
+						loc[id.Name] = true
+					}
+				}
+			}
+		}
+		return true
+	})
+	delete(loc, "_")
+	return loc
+}
+
+type renamer struct {
+	loc map[string]bool
+	num map[string]int
+}
+
+func (r *renamer) str(e ast.Expr) string {
+	switch x := e.(type) {
+	case *ast.Ident:
+		if r.loc[x.Name] {
+			if _, ok := r.num[x.Name]; !ok {
+				r.num[x.Name] = len(r.num) + 1
+			}
+			return fmt.Sprintf("$%d", r.num[x.Name])
+		}
+		return x.Name
+	case *ast.BasicLit:
+		return x.Value
+	case *ast.ParenExpr:
+		return "(" + r.str(x.X) + ")"
+	case *ast.SelectorExpr:
+		return r.str(x.X) + "." + x.Sel.Name
+	case *ast.StarExpr:
+		return "*" + r.str(x.X)
+	case *ast.UnaryExpr:
+		return x.Op.String() + r.str(x.X)
+	case *ast.BinaryExpr:
+		// x / c and x * c with a numeric literal c are printed as x*<rational factor>
+		if l, ok := x.Y.(*ast.BasicLit); ok && (x.Op == token.QUO || x.Op == token.MUL) && (l.Kind == token.INT || l.Kind == token.FLOAT) {
+			if c, ok := new(big.Rat).SetString(l.Value); ok && c.Sign() != 0 {
+				if x.Op == token.QUO {
+					c = new(big.Rat).Inv(c)
+				}
+				return r.str(x.X) + "*" + c.RatString()
+			}
+		}
+		return r.str(x.X) + " " + x.Op.String() + " " + r.str(x.Y)
+	case *ast.IndexExpr:
+		return r.str(x.X) + "[" + r.str(x.Index) + "]"
+	case *ast.CallExpr:
+		a := make([]string, len(x.Args))
+		for i, y := range x.Args {
+			a[i] = r.str(y)
+		}
+		return r.str(x.Fun) + "(" + strings.Join(a, ", ") + ")"
+	}
+	return types.ExprString(e)
+}
+
+// cmpsOf lists the normalised comparisons of a function in source order.
+func cmpsOf(fn ast.Node, body ast.Node) [][3]string {
 	var out [][3]string
+	r := &renamer{loc: localsOf(fn), num: map[string]int{}}
 	ast.Inspect(body, func(n ast.Node) bool {
 		b, ok := n.(*ast.BinaryExpr)
 		if !ok {
 			return true
 		}
-		x, y := types.ExprString(b.X), types.ExprString(b.Y)
 		switch b.Op {
 		case token.LSS:
+			x, y := r.str(b.X), r.str(b.Y)
 			out = append(out, [3]string{"lt", x, y})
 		case token.LEQ:
+			x, y := r.str(b.X), r.str(b.Y)
 			out = append(out, [3]string{"le", x, y})
 		case token.GTR:
+			y, x := r.str(b.Y), r.str(b.X)
 			out = append(out, [3]string{"lt", y, x})
 		case token.GEQ:
+			y, x := r.str(b.Y), r.str(b.X)
 			out = append(out, [3]string{"le", y, x})
 		case token.EQL, token.NEQ:
 			op := "eq"
@@ -118,8 +222,10 @@ func cmpsOf(body ast.Node) [][3]string {
 				op = "ne"
 			}
 			if isConst(b.Y) {
+				x, y := r.str(b.X), r.str(b.Y)
 				out = append(out, [3]string{op, x, y})
 			} else if isConst(b.X) {
+				y, x := r.str(b.Y), r.str(b.X)
 				out = append(out, [3]string{op, y, x})
 			}
 		}
@@ -276,7 +382,7 @@ func GenTables(repo, out string) error {
 		if fd == nil {
 			return fmt.Errorf("function %s not found in package tree", fn)
 		}
-		rows = append(rows, row{fn, cmpsOf(fd.Body), factorsOf(fd.Body)})
+		rows = append(rows, row{fn, cmpsOf(fd, fd.Body), factorsOf(fd.Body)})
 	}
 	// the commands
 	_, cfiles, err := parseDir(filepath.Join(repo, "cmd"), srcCmdFiles)
@@ -336,7 +442,7 @@ func GenTables(repo, out string) error {
 						return true
 					})
 					cmds = append(cmds, cr)
-					rows = append(rows, row{"cmd:" + cr.name, cmpsOf(run.Body), factorsOf(run.Body)})
+					rows = append(rows, row{"cmd:" + cr.name, cmpsOf(run, run.Body), factorsOf(run.Body)})
 				}
 			case *ast.FuncDecl:
 				if x.Name.Name != "init" || x.Body == nil {
